@@ -385,7 +385,13 @@ def facts_lookup_like(facts):
                 continue
             known = BASE_LOOKUPS | found
             calls = [callee(x) for x in fn.walk() if x.kind == "CallExpr"]
-            if not calls or any(c not in known for c in calls):
+            if any(c not in known for c in calls):
+                continue
+            returns_global = any(
+                x.kind == "ReturnStmt" and x.ch
+                and strip(x.ch[0]).kind == "DeclRefExpr"
+                and strip(x.ch[0]).ref in facts.globals for x in fn.walk())
+            if not calls and not returns_global:
                 continue
             # locals assigned only from lookups / NULL
             ok_vars = {}
@@ -422,6 +428,8 @@ def facts_lookup_like(facts):
                 if e.kind == "DeclRefExpr" and e.ref in ok_vars \
                         and e.ref not in bad_vars:
                     continue
+                if e.kind == "DeclRefExpr" and e.ref in facts.globals:
+                    continue        # a module-level object: borrowed
                 good = False
                 break
             if good:
